@@ -83,10 +83,14 @@ Definition stamps := nid -> tid -> option nat.
 Definition new_stamps (s s' : fstate) (k' : clocks) (lf : stamps) : stamps :=
   fun n x => if fwait s' n x then None else if fwait s n x then Some (vc k' x x) else lf n x.
 
+Definition new_stampsq (s s' : fstate) (k' : clocks) (lf : tid -> tid -> option nat) : tid -> tid -> option nat :=
+  fun b x => if fqbw s' b x then None else if fqbw s b x then Some (vc k' x x)
+             else match qb_target (fth s b), qb_target (fth s' b) with None, Some _ => None | _, _ => lf b x end.
+
 Definition hstep (t : tid) (h : hstate) : hstate * list wev :=
   let '(s', evs, op) := fstep t (hf h) in
   let k' := match fstop (hf h) with Some _ => hk h | None => cstep t op (hk h) end in
-  (mkH s' k' (new_stamps (hf h) s' k' (hleft h)), evs).
+  (mkH s' k' (new_stamps (hf h) s' k' (hleft h)) (new_stampsq (hf h) s' k' (hleftq h)), evs).
 
 Variable U : list tid.
 Variable nown : nid -> tid.
